@@ -196,6 +196,16 @@ fn main() {
         for s in NEAR_MISSES {
             cx.parse_case(s, true, "near-miss");
         }
+        // around the nesting limit of the lexer (if it has one)
+        for n in [100usize, 126, 127, 128, 129, 130, 200] {
+            cx.parse_case(&format!("package a:b; let x = {}y{};", "(".repeat(n), ")".repeat(n)), true, "nesting");
+            cx.parse_case(&format!("package a:b; type t = {}u8{};", "list<".repeat(n), ">".repeat(n)), true, "nesting");
+            cx.parse_case(&format!("package a:b; type t = {}u8{};", "result<".repeat(n), ">".repeat(n)), true, "nesting");
+            cx.parse_case(&format!("package a:b; type t = {}u8{};", "tuple<".repeat(n), ">".repeat(n)), true, "nesting");
+            cx.parse_case(&format!("package a:b; let x = {}y{};", "new a:b { z: ".repeat(n), " }".repeat(n)), true, "nesting");
+            cx.parse_case(&format!("package a:b; let x = {}y;", "(".repeat(n)), true, "nesting");
+            cx.parse_case(&format!("package a:b; interface i {{ f: func(a: {}u8{}); }}", "option<".repeat(n), ">".repeat(n)), true, "nesting");
+        }
         let repo = std::env::var("WACV_REPO").unwrap_or_else(|_| "/repo".into());
         for p in wac_files(&repo) {
             if let Ok(src) = std::fs::read_to_string(&p) {
@@ -209,6 +219,49 @@ fn main() {
                     let cut = idx[r.below(idx.len())];
                     cx.parse_case(&src[..cut], true, "repo-file-truncated");
                 }
+            }
+        }
+    }
+
+    // 1b. showcase documents: every production, every single-token mutant (spread over the shards)
+    for (i, doc) in SHOWCASE.iter().enumerate() {
+        let toks: Vec<String> = doc.split(' ').map(String::from).collect();
+        if shard == i % nshards {
+            cx.parse_case(&layout_plain(&toks), true, "showcase");
+            for _ in 0..4 {
+                let t = layout(&mut r, &toks);
+                cx.parse_case(&t, true, "showcase-layout");
+            }
+        }
+        for (j, m) in all_mutations(toks.len(), subs).into_iter().enumerate() {
+            if j % nshards != shard {
+                continue;
+            }
+            let v = apply(&mut r, &toks, m);
+            let src = if r.chance(1, 4) { layout(&mut r, &v) } else { layout_plain(&v) };
+            cx.parse_case(&src, true, "showcase-mutant");
+        }
+    }
+    // 1c. code points at chosen places: inside a line comment, a block comment, a doc comment, a
+    //     string, an identifier, between tokens, at the very end
+    if shard == 0 {
+        let base = "package a:b; // line comment\n/* block */ /// doc\nlet xy = new a:b { \"str\": y };";
+        let places: Vec<usize> = ["line", "block", "doc", "str\"", "xy", "= new", ""]
+            .iter()
+            .map(|needle| if needle.is_empty() { base.len() } else { base.find(needle).unwrap() + 1 })
+            .collect();
+        for cp in [
+            '\u{80}', '\u{85}', '\u{90}', '\u{9f}', '\u{7f}', '\u{0}', '\u{1}', '\u{8}', '\u{b}', '\u{c}', '\u{f}', '\u{1b}', '\u{1f}', '\u{202a}', '\u{202b}',
+            '\u{202c}', '\u{202d}', '\u{202e}', '\u{2066}', '\u{2067}', '\u{2068}', '\u{2069}', '\u{149}', '\u{673}', '\u{f77}', '\u{f79}', '\u{17a3}',
+            '\u{17a4}', '\u{17b4}', '\u{17b5}', '\u{a0}', '\u{ad}', '\u{200b}', '\u{200e}', '\u{2028}', '\u{2029}', '\u{feff}', '\u{fffd}', '\u{e000}',
+            '\u{10ffff}', '\t', '\r', '\n', '\u{e9}', '\u{148}', '\u{14a}', '\u{17b6}', '\u{2065}', '\u{206a}', '\u{a1}',
+        ] {
+            for &at in &places {
+                let mut t = String::new();
+                t.push_str(&base[..at]);
+                t.push(cp);
+                t.push_str(&base[at..]);
+                cx.parse_case(&t, true, "code-point-placed");
             }
         }
     }
